@@ -339,7 +339,7 @@ func (st *Runtime) executeLetList(set *SetNode) {
 	}
 }
 
-func (st *Runtime) executeYieldBlock(block *BlockNode, blockParam, yieldParam *BlockParameterList, expression Expression, content *ListNode) {
+func (st *Runtime) executeYieldBlock(node Node, block *BlockNode, blockParam, yieldParam *BlockParameterList, expression Expression, content *ListNode) {
 
 	needNewScope := len(blockParam.List) > 0 || len(yieldParam.List) > 0
 	if needNewScope {
@@ -348,7 +348,7 @@ func (st *Runtime) executeYieldBlock(block *BlockNode, blockParam, yieldParam *B
 			p := &yieldParam.List[i]
 
 			if p.Expression == nil {
-				block.errorf("missing name for block parameter '%s'", blockParam.List[i].Identifier)
+				node.errorf("missing value for block parameter '%s'", p.Identifier)
 			}
 
 			st.variables[p.Identifier] = st.evalPrimaryExpressionGroup(p.Expression)
@@ -550,7 +550,7 @@ func (st *Runtime) executeList(list *ListNode) (returnValue reflect.Value) {
 				if has == false || block == nil {
 					node.errorf("unresolved block %q!!", node.Name)
 				}
-				st.executeYieldBlock(block, block.Parameters, node.Parameters, node.Expression, node.Content)
+				st.executeYieldBlock(node, block, block.Parameters, node.Parameters, node.Expression, node.Content)
 			}
 		case NodeBlock:
 			node := node.(*BlockNode)
@@ -558,7 +558,7 @@ func (st *Runtime) executeList(list *ListNode) (returnValue reflect.Value) {
 			if has == false {
 				block = node
 			}
-			st.executeYieldBlock(block, block.Parameters, block.Parameters, block.Expression, block.Content)
+			st.executeYieldBlock(node, block, block.Parameters, block.Parameters, block.Expression, block.Content)
 		case NodeInclude:
 			node := node.(*IncludeNode)
 			returnValue = st.executeInclude(node)
